@@ -2,6 +2,7 @@
 import os
 from fractions import Fraction
 
+import json
 import numpy as np
 
 from .. import lib
@@ -45,7 +46,10 @@ GATTRS = {'title': 'hello world', 'version': ('f4', 1.25), 'levels': ('i4', [1, 
           # names that are python attributes of netCDF4.Dataset
           'path': 'a/b', 'name': 'fname', 'mask': 'land', 'scale': 2.5, 'parent': 'p',
           # a double underscore inside a name, text beyond ASCII
-          'grid__mapping': 'lcc', 'institution': u'Universit\u00e4t \u00b0C'}
+          'grid__mapping': 'lcc', 'institution': u'Universit\u00e4t \u00b0C',
+          # a variable list in IOAPI style that names a variable the file does not have (left by subsetVariables / rename): attributes
+          # are values, they are written as they are
+          'VAR-LIST': 'V0              NOSUCHVAR       ', 'NVARS': ('i4', 2)}
 
 
 def gen(rng, tier):
@@ -99,7 +103,19 @@ def gen(rng, tier):
         out.append(dict(kind='big', flavour=rng.choice(FLAVOURS), complevel=0, lead=rng.choice([25, 17, 33]),
                         dt=rng.choice(['d', 'd', 'f']), masked=rng.random() < 0.3))
     out.append(witnesses()[0][1])
-    return out
+    # values handed over as strided views of big-endian buffers; the stale variable list
+    extra = []
+    for c in out:
+        if c.get('kind') is None and len(extra) < max(6, n // 10) and any(
+                v['how'] is None and v['dims'] and v['dt'] in 'fdih' and not v.get('derive') for v in c['vars']):
+            c2 = json.loads(json.dumps(c))
+            for v in c2['vars']:
+                if v['how'] is None and v['dims'] and v['dt'] in 'fdih' and not v.get('derive'):
+                    v['layout'] = 'be_strided'
+            if len(extra) % 2 == 0:
+                c2['gattrs'] = sorted(set(c2['gattrs']) | {'VAR-LIST', 'NVARS'})
+            extra.append(c2)
+    return out + extra
 
 
 def _val(spec):
@@ -108,6 +124,14 @@ def _val(spec):
     if isinstance(spec, list):
         return np.array(spec)
     return spec
+
+
+def _vattr(v, a):
+    """the value of variable attribute a: the unit text also padded to 16 characters (IOAPI / CAMx), with a trailing newline
+    or all blank - the characters are the value"""
+    if a == 'units' and v.get('seed', 0) % 4:
+        return ['ppb', 'ppmV            ', 'K\n', '                '][v['seed'] % 4]
+    return _val(VATTRS[a])
 
 
 def build(case):
@@ -153,7 +177,7 @@ def build(case):
                 del f.variables[v['name']]
                 var = f.createVariable(v['name'], v['dt'], tuple(v['dims']), values=arr)
                 for a in v['attrs']:
-                    setattr(var, a, _val(VATTRS[a]))
+                    setattr(var, a, _vattr(v, a))
                 continue
             else:
                 # a masked array in a variable created without fill_value
@@ -172,8 +196,14 @@ def build(case):
                 key = np.dtype(v['dt']).str[1:]
                 vals.flat[v['seed'] % vals.size] = netCDF4.default_fillvals[key]
             var[...] = vals
+            if v.get('layout') == 'be_strided' and vals.ndim >= 1 and v['dt'] in 'fdih':
+                # the values as a strided view of a big-endian buffer (what the memory-mapped readers of Fortran records hand out)
+                buf = np.zeros(shape[:-1] + (shape[-1] * 2,), dtype='>' + np.dtype(v['dt']).str[1:])
+                buf[..., ::2] = vals
+                del f.variables[v['name']]
+                var = f.createVariable(v['name'], v['dt'], tuple(v['dims']), values=buf[..., ::2])
         for a in v['attrs']:
-            setattr(var, a, _val(VATTRS[a]))
+            setattr(var, a, _vattr(v, a))
         if v.get('derive') == 'half':
             f.variables[v['name']] = var * 0.5
         elif v.get('derive') == 'astype':
